@@ -301,6 +301,15 @@ fn emit_case<M: OpContainer>(
     if b.state != a.state {
         stat("state_changed", 1);
     }
+    if rel == "rvb" && skeleton(b) != skeleton(a) {
+        stat("rvb.rebonded", 1);
+    }
+    if (rel == "icluster" || rel == "gcluster" || rel == "loop" || rel == "rvb") && b.ops != a.ops {
+        stat(&format!("flipped_ops.{}", rel), 1);
+    }
+    if a.ops.iter().any(|o| !o.diag) {
+        stat("has_offdiagonal", 1);
+    }
     stat(&format!("n_ops.{}", std::cmp::min(a.ops.len() / 8, 6) * 8), 1);
     ctx.cases += 1;
 }
@@ -487,7 +496,7 @@ fn generic_timestep(ctx: &mut Ctx, q: &mut Q, beta: f64) -> bool {
 // generators
 // ------------------------------------------------------------------------------------------
 fn gen_beta(r: &mut SplitMix64) -> f64 {
-    *r.pick(&[0.125, 0.25, 0.5, 0.75, 1.0, 1.5, 2.0, 3.0, 4.0])
+    *r.pick(&[0.125, 0.25, 0.5, 1.0, 1.5, 2.0, 3.0, 4.0, 4.0, 6.0, 8.0])
 }
 
 struct IsingSpec {
@@ -976,26 +985,33 @@ fn f12(ctx: &mut Ctx, r: &mut SplitMix64, n: usize) {
         // warm up with a SplitMix sampler, then transfer the configuration into RecRng samplers
         let mut g0 = G::<SplitMix64>::new_with_rng(spec.edges.clone(), spec.gamma, spec.h, 4, SplitMix64::new(r.next()), Some(gen_state(r, spec.nvars)));
         for _ in 0..r.range(2, 6) {
-            g0.timestep(gen_beta(r));
+            g0.timestep(*r.pick(&[1.0, 2.0, 4.0]));
         }
         let sg: serialization::SerializeQmcGraph<FastOps> = g0.into();
-        let seed = r.next();
-        let base: G<RecRng> = sg.clone().into_qmc(RecRng::new(seed));
-        // reference run: log the words
-        let mut refrun: G<RecRng> = sg.clone().into_qmc(RecRng::new(seed));
-        let b = snap_g(&refrun);
-        if catch(|| {
-            refrun.single_rvb_sweep(Some(1));
-        })
-        .is_err()
-        {
-            continue;
+        // look for an rng seed under which one RVB update re-bonds an operator
+        let mut seed = r.next();
+        let mut rebonded = false;
+        for _ in 0..40 {
+            seed = r.next();
+            let mut refrun: G<RecRng> = sg.clone().into_qmc(RecRng::new(seed));
+            let b = snap_g(&refrun);
+            if catch(|| {
+                refrun.single_rvb_sweep(Some(1));
+            })
+            .is_err()
+            {
+                continue;
+            }
+            let a = snap_g(&refrun);
+            if skeleton(&a) != skeleton(&b) {
+                rebonded = true;
+                break;
+            }
         }
-        let a = snap_g(&refrun);
-        let rebonded = skeleton(&a) != skeleton(&b);
         if !rebonded {
             continue;
         }
+        let base: G<RecRng> = sg.clone().into_qmc(RecRng::new(seed));
         stat("f12.rebonding_updates", 1);
         // number of words drawn: probe each position with the word 0 (and the largest word)
         let log_len = count_words(&sg, seed);
@@ -1015,7 +1031,9 @@ fn f12(ctx: &mut Ctx, r: &mut SplitMix64, n: usize) {
         found += 1;
         let _ = &base;
     }
-    stat("f12.configs", found);
+    if found > 0 {
+        stat("f12.configs", found);
+    }
 }
 
 fn count_words(sg: &serialization::SerializeQmcGraph<FastOps>, seed: u64) -> usize {
@@ -1049,6 +1067,14 @@ fn log_prefix(sg: &serialization::SerializeQmcGraph<FastOps>, seed: u64, n: usiz
     log.into_iter().take(n).collect()
 }
 
+/// Run one scenario; a panic that escapes the per-call guards (only possible once the real code
+/// misbehaves) is reported as a failing case instead of killing the harness.
+fn guarded(ctx: &mut Ctx, what: &str, f: impl FnOnce(&mut Ctx)) {
+    if let Err(msg) = catch(|| f(ctx)) {
+        emit(true, &format!("init {} - 0 - L0: - L0:", what), "rel:1 cons:1 legal:1 fold:PANIC", Some(Err(format!("C06 uncaught panic in {}: {}", what, msg))));
+    }
+}
+
 fn main() {
     quiet_panics();
     let a = args();
@@ -1056,23 +1082,43 @@ fn main() {
     let mut ctx = Ctx { cases: 0 };
     match a.mode.as_str() {
         "walk" | "all" => {
-            let (nsc, ncalls) = if a.thorough { (260, 40) } else { (60, 24) };
+            let (nsc, ncalls) = if a.thorough { (2000, 60) } else { (500, 50) };
             for k in 0..nsc {
-                match k % 4 {
-                    0 => ising_scenario(&mut ctx, &mut r, ncalls, Some(false)),
-                    1 => ising_scenario(&mut ctx, &mut r, ncalls, Some(true)),
-                    2 => generic_scenario(&mut ctx, &mut r, ncalls),
-                    _ => ising_scenario(&mut ctx, &mut r, ncalls, None),
-                }
+                let mut rr = SplitMix64::new(r.next());
+                guarded(&mut ctx, "scenario", |ctx| match k % 4 {
+                    0 => ising_scenario(ctx, &mut rr, ncalls, Some(false)),
+                    1 => ising_scenario(ctx, &mut rr, ncalls, Some(true)),
+                    2 => generic_scenario(ctx, &mut rr, ncalls),
+                    _ => ising_scenario(ctx, &mut rr, ncalls, None),
+                });
+            }
+        }
+        "walk7" => {
+            // C07: other seeds, longitudinal field in three of four Ising scenarios
+            let mut r = SplitMix64::new(a.seed.wrapping_mul(0xD1B54A32D192ED03) ^ 0xC07);
+            let (nsc, ncalls) = if a.thorough { (2000, 60) } else { (500, 50) };
+            for k in 0..nsc {
+                let mut rr = SplitMix64::new(r.next());
+                guarded(&mut ctx, "scenario", |ctx| match k % 5 {
+                    0 => ising_scenario(ctx, &mut rr, ncalls, Some(false)),
+                    2 => generic_scenario(ctx, &mut rr, ncalls),
+                    _ => ising_scenario(ctx, &mut rr, ncalls, Some(true)),
+                });
             }
         }
         "swapcut" => {
-            let n = if a.thorough { 40 } else { 10 };
-            swapcut(&mut ctx, &mut r, n);
+            let n = if a.thorough { 200 } else { 40 };
+            for _ in 0..n {
+                let mut rr = SplitMix64::new(r.next());
+                guarded(&mut ctx, "swapcut", |ctx| swapcut(ctx, &mut rr, 1));
+            }
         }
         "f12" => {
-            let n = if a.thorough { 200 } else { 40 };
-            f12(&mut ctx, &mut r, n);
+            let n = if a.thorough { 1500 } else { 300 };
+            for _ in 0..n {
+                let mut rr = SplitMix64::new(r.next());
+                guarded(&mut ctx, "f12", |ctx| f12(ctx, &mut rr, 1));
+            }
         }
         m => {
             eprintln!("unknown mode {}", m);
